@@ -248,10 +248,10 @@ PROPS["C06"] = {
     "coq": ["Properties/C06.v", "Corr/Rtcorr.v"],
     "trusted": RT_TRUSTED + ["encoding/json.Marshal on the __premarshal structs is modelled in Rt/JsonEncode.v (omitempty, nil pointer/slice/interface, the shallower TypeName field hiding an implementation's own `__typename`) and compared with the real output on every decoded value of every run; user marshalers are the harness's stubs"],
     "assumptions": ["unmarshal(marshal(v)) deep-equals v is decided by reflect.DeepEqual on the compiled generated types (oracle), not by a theorem: the theorems cover the one-occurrence-per-key and __typename parts"],
-    "level_text": "Theorems over EVERY typemap: FlattenedFields (breadth-first over embedded fragment structs) selects exactly one Go field per JSON name; the object a struct marshals to carries each key at most once; an abstract value marshals with __typename = the GraphQL name of its concrete type exactly once and first. A concrete two-type response is proved to round-trip exactly, and the statement is REFUTED for null lists of abstract values (re-marshaled as [], known finding). Tied to marshal.go.tmpl / marshal_helper.go.tmpl / types.go by marshaling every decoded value with the compiled generated code and comparing the JSON with Rt/JsonEncode.v in-kernel; deep equality of the re-decoded value and equality with the response up to the documented loss are oracle checks on the same runs.",
+    "level_text": "Theorems over EVERY typemap: FlattenedFields (breadth-first over embedded fragment structs) selects exactly one Go field per JSON name; the object a struct marshals to carries each key at most once; an abstract value marshals with __typename = the GraphQL name of its concrete type exactly once and first. decode(encode v) = v is proved for the wrapper algebra of leaf types (slices at any depth, optional pointer, scalar-like leaf; unbounded). A concrete two-type response is proved to round-trip exactly, and the statement is REFUTED for null lists of abstract values (re-marshaled as [], known finding). Tied to marshal.go.tmpl / marshal_helper.go.tmpl / types.go by marshaling every decoded value with the compiled generated code and comparing the JSON with Rt/JsonEncode.v in-kernel; deep equality of the re-decoded value and equality with the response up to the documented loss are oracle checks on the same runs.",
     "level_note": "partial: the general round-trip is oracle-decided per run; three open findings (null list -> []; keys differing only by case; one key carried by a pointer and a non-pointer field).",
     "theorem_status": {"C06_one_field_per_json_name": "proved", "C06_each_key_once": "proved", "C06_typename_present_once": "proved",
-                       "C06_witness_roundtrip": "proved (non-vacuity)", "C06_null_list_roundtrip_refuted": "refuted part of the statement (witness by vm_compute; known finding)"},
+                       "C06_witness_roundtrip": "proved (non-vacuity)", "C06_wrapper_roundtrip": "proved (round trip for slices^n around an optional pointer around a scalar-like type, unbounded)", "C06_wrapper_roundtrip_witness": "proved (non-vacuity)", "C06_null_list_roundtrip_refuted": "refuted part of the statement (witness by vm_compute; known finding)"},
 }
 
 PROPS["C04"] = {
